@@ -238,7 +238,7 @@ def render(v):
         return 'HASHER(%s;%s)' % (v.alg, render_items(v.items))
     if isinstance(v, ListV):
         br = '[]' if v.kind == 'list' else '()' if v.kind == 'tuple' else '{}'
-        return br[0] + ', '.join(render(e) for e in v.elems) + br[1]
+        return br[0] + ', '.join(render(e) for e in v.elems) + (',' if v.kind == 'tuple' and len(v.elems) == 1 else '') + br[1]
     if isinstance(v, Obj):
         return v.text if v.name.startswith('<new') else v.name
     if isinstance(v, EachV):
